@@ -4,6 +4,7 @@ from .macros import *
 from . import macros as mac
 from . import patches
 
+PER_TARGET = True      # every rule below looks at one target configuration at a time (check.py may fork one worker per target)
 NEEDS_WS = True
 DECIDED = ("R9.1 in every checked (safe) public install root the installation is on the equal edge of a whole-string equality (str eq/ne) "
            "between the replacement's recorded signature and the signature stored by when_called*, the other edge diverges, and the test "
